@@ -218,10 +218,17 @@ fn run(args: &Args) {
             }
             // ---- C11
             {
-                let shadow = sys.world.restart(&sys.node_id);
-                let d = fingerprint_diff(&fingerprint(&sys.node), &fingerprint(&shadow));
-                if !d.is_empty() {
-                    c11.push(format!("after {} ({}) a restart would differ: {}", coq, if ok { "Ok" } else { "Err" }, d.join("; ")));
+                let node_now = sys.node.clone();
+                match catch_unwind(AssertUnwindSafe(|| {
+                    let shadow = sys.world.restart(&sys.node_id);
+                    fingerprint_diff(&fingerprint(&node_now), &fingerprint(&shadow))
+                })) {
+                    Ok(d) => {
+                        if !d.is_empty() {
+                            c11.push(format!("after {} ({}) a restart would differ: {}", coq, if ok { "Ok" } else { "Err" }, d.join("; ")));
+                        }
+                    }
+                    Err(_) => c11.push(format!("after {} ({}) the signer cannot be restored from its store (restore panics)", coq, if ok { "Ok" } else { "Err" })),
                 }
             }
             ops.push(coq);
